@@ -1,6 +1,6 @@
 """C01 — events run in time-then-priority order; clock monotone; at most once; run(d) semantics."""
-from engines import envmachine, e1gen
-from vlib.runner import Search
+from engines import envmachine, e1gen, e3gen, linefuzz
+from vlib.runner import Search, Violation, repo_frames
 
 ID = 'C01'
 WATCHDOG_IS_VIOLATION = True   # the statement says the run ends / the line reaches its horizon
@@ -12,20 +12,41 @@ RULE = ('Hypothesis-generated operation histories on a bare Environment: schedul
         'maximum priority among live queued events - independent of Event.__lt__), clock == event time and '
         'monotone, at most once, ValueError + unchanged queue for the past, run(d) completeness/exactness against '
         'the reference model. Non-trivial = at least one dispatch was chosen among >=2 live events with equal '
-        'time and different priority AND at least one event was inserted from inside a running action; '
+        'time and different priority AND at least one event was inserted from inside a running action (for the '
+        'second phase - the same dispatch predicate applied to generated multi-device E3 models - at least one '
+        'priority tie among real device events); '
         'distinct = SHA-1 of the canonical case JSON.')
 ASSUMPTIONS = ['Environment._events holds exactly the pending events (anchor of C01); cancelled events are not live',
                'user events use priorities above EventType.TERMINATE (the documented custom-priority range)',
                'asset id -1 (owner of the TERMINATE event) is never paused/cancelled by the generated histories']
 
 
+MIX = [('general', 4), ('contention', 2), ('interrupt', 2), ('groups', 1), ('buffers', 1)]
+
+
 def phases(tier):
     if tier == 'quick':
-        return [Search('hypothesis-histories', lambda: e1gen.cases(40), 1500, shards=4)]
-    return [Search('hypothesis-histories', lambda: e1gen.cases(80), 3000, shards=16)]
+        return [Search('hypothesis-histories', lambda: e1gen.cases(40), 1500, shards=4, tag='histories'),
+                Search('device-models', lambda: e3gen.specs(MIX), 100, shards=4, tag='models')]
+    return [Search('hypothesis-histories', lambda: e1gen.cases(80), 3000, shards=16, tag='histories'),
+            Search('device-models', lambda: e3gen.specs(MIX), 800, shards=16, tag='models')]
+
+
+def on_repo_exception(case, e):
+    return Violation('C01.crash', f'{type(e).__name__}: {e} at {repo_frames(e)}')
+
+
+def valid(case):
+    return e3gen.well_posed(case) if 'devs' in case else True
 
 
 def run_case(case, ctx):
+    if 'devs' in case:
+        # (b) the same validity predicate on every dispatch of a generated multi-device model
+        mon = linefuzz.run_spec(case, ('head',))
+        ties = mon.c['prio_ties']
+        return {'nontrivial': ties > 0 and mon.c['events'] > 30, 'classes': ['model-run'] + (['model-priority-tie'] if ties else []),
+                'counters': {'dispatches': mon.c['events'], 'prio_ties': ties}}
     m = envmachine.run(case, ('C01',))
     c = m.c
     classes = []
